@@ -261,6 +261,27 @@ def context(run):
         foreign = H.get("md5_crypt").hash(pw)
         if ctx.verify(pw, foreign) is not False or ctx.needs_update(foreign) is not True:
             run.violation("C20|context|foreign-hash", f"context {names}: md5_crypt hash verify/needs_update wrong", w)
+    # cost migration: the same hasher class twice with different costs - the first one is the policy
+    for name in PAIRS:
+        lo = cheap[name]
+        other = lo + 1 if "bcrypt" not in name else (5 if lo == 4 else 4)
+        for first_cost, second_cost in ((lo, other), (other, lo)):
+            h1, h2 = lp_make(name, first_cost), lp_make(name, second_cost)
+            ctx = CryptContext(schemes=[h1, h2])
+            pw = "migration pw"
+            w = dict(schemes=[f"{name}(rounds={first_cost})", f"{name}(rounds={second_cost})"], password=pw)
+            try:
+                made = ctx.hash(pw)
+                res = dict(own_verify=ctx.verify(pw, made), own_needs_update=ctx.needs_update(made), own_from_first=h1.needs_update(made) is False,
+                           old_verify=ctx.verify(pw, h2.hash(pw)), wrong=ctx.verify(pw + "x", made))
+            except Exception as e:
+                run.violation(f"C20|context|same-class-twice|raises|{type(e).__name__}", f"libpass context with {w['schemes']} raised {type(e).__name__}: {str(e)[:100]}", w)
+                continue
+            run.count("context_same_class_twice")
+            run.case(("context", "same-class-twice", name, first_cost < second_cost), dict(w, hash=made))
+            if res != dict(own_verify=True, own_needs_update=False, own_from_first=True, old_verify=True, wrong=False):
+                run.violation(f"C20|context|same-class-twice|{'+'.join(k for k, v in res.items() if v is not (k in ('own_verify', 'own_from_first', 'old_verify')))}",
+                              f"libpass context with {w['schemes']}: {res} (its own fresh hash must verify, come from the first scheme and need no update)", dict(w, hash=made, results=res))
     try:
         CryptContext(schemes=[])
         run.violation("C20|context|empty-scheme-list-accepted", "libpass context accepts an empty scheme list", {})
@@ -279,6 +300,7 @@ def body(run):
     run.require("identify_cells", 500)
     run.require("context_cases", 30)
     run.require("context_same_format_cases", 60)
+    run.require("context_same_class_twice", 10)
     run.require("hash_given_as_bytes", 50)
     run.assumptions += ["bcrypt passwords are limited to 72 bytes (the limit the bcrypt library itself enforces)",
                         "libpass BcryptSHA256Hasher implements the v=2 PHC spelling only; BcryptHasher the 2a/2b/2y idents"]
